@@ -243,7 +243,7 @@ struct smoothed_aggr_emin {
                         else if (cb < ca)
                             ++jb;
                         else /*ca == cb*/ {
-                            Val v = AP->val[ja] * adap_val[jb];
+                            Val v = math::adjoint(adap_val[jb]) * AP->val[ja];
 #pragma omp critical
                             omega[ca] += v;
                             ++ja;
@@ -256,7 +256,7 @@ struct smoothed_aggr_emin {
                         Col c = adap_col[j];
                         Val v = adap_val[j];
 #pragma omp critical
-                        denum[c] += v * v;
+                        denum[c] += math::adjoint(v) * v;
                         marker[c] = -1;
                     }
                 }
@@ -326,7 +326,7 @@ struct smoothed_aggr_emin {
              */
 #pragma omp parallel for
             for(ptrdiff_t i = 0; i < static_cast<ptrdiff_t>(nc); ++i) {
-                Val w = omega[i];
+                Val w = math::adjoint(omega[i]);
 
                 for(Ptr ja = RA->ptr[i],     ea = RA->ptr[i+1],
                         jr = R_tent->ptr[i], er = R_tent->ptr[i+1];
